@@ -371,8 +371,11 @@ func TestC16(t *testing.T) {
 				}
 				return a, b
 			}
-			kind := c.Weighted("event", 5, 4, 2, 2, 3, 3, 2, 2, 3, 3)
 			live := w.live()
+			kind := c.Weighted("event", 5, 4, 2, 2, 3, 3, 2, 2, 3, 3, 3, 3)
+			if kind == 11 && len(live) == 0 {
+				kind = 0
+			}
 			if kind >= 4 && kind <= 7 && len(live) == 0 {
 				kind = 0
 			}
@@ -453,6 +456,62 @@ func TestC16(t *testing.T) {
 				w.closeEnds(cc, true, true)
 				if w.cross {
 					w.closedAfterCross = true
+				}
+			case 11: // a local close that takes its time (its log callback is slow) while the peer drops the connection and dials again
+				cc := live[c.Pick("slow.which", len(live))]
+				side := c.Pick("slow.side", 2)
+				e := cc.conn.A
+				local, remote := cc.a, cc.b
+				if side == 1 {
+					e = cc.conn.B
+					local, remote = cc.b, cc.a
+				}
+				if e.Link == nil || cc.closed[side] {
+					break
+				}
+				hold := time.Duration(c.Int("slow.ms", 10, 60)) * time.Millisecond
+				w.log("slow local close of link n%d->n%d at side %d (%s in its log callback); n%d drops the connection and dials again meanwhile", cc.a, cc.b, side, hold, remote)
+				closed := make(chan struct{})
+				go func() {
+					defer close(closed)
+					e.Link.Close(func() { time.Sleep(hold) })
+				}()
+				time.Sleep(time.Millisecond)
+				w.closeEnds(cc, side == 1, side == 0) // the remote end goes away
+				nc := &c16Conn{conn: wire.Dial(w.nodes[remote], w.nodes[local]), a: remote, b: local}
+				w.conns = append(w.conns, nc)
+				w.drive([]*c16Conn{nc}, true, -1)
+				select {
+				case <-closed:
+				case <-time.After(wire.Budget):
+					w.inconcl = true
+				}
+				w.waitClosed(e)
+				cc.closed[side] = true
+				w.closeEnds(cc, side == 0, side == 1)
+				c.Class("slow-close-with-reconnect")
+			case 10: // gossip arrives: a route to one live peer that leads over another live peer
+				done := false
+				for i, nd := range w.nodes {
+					links := nd.Peer.GetLinks()
+					if len(links) < 2 || done {
+						continue
+					}
+					x := c.Pick("gossip.dst", len(links))
+					y := (x + 1 + c.Pick("gossip.via", len(links)-1)) % len(links)
+					dst, via := links[x], links[y]
+					e := m.RoutingTableEntry{DstIP: dst.Peer(), NextHop: via.Peer(), Source: m.RouteSourceGossip, Expires: time.Now().Add(time.Hour)}
+					e.Path.Hops = []m.SwitchHop{
+						{Router: nd.IP(), ForwardLabel: via.SwitchLabel(), Delay: 5},
+						{Router: via.Peer(), ForwardLabel: m.SwitchLabel(c.Int("gossip.f", 1, 120)), ReturnLabel: m.SwitchLabel(c.Int("gossip.r", 1, 120)), Delay: 5},
+						{Router: dst.Peer(), ReturnLabel: m.SwitchLabel(c.Int("gossip.rl", 1, 120))},
+					}
+					added, err := nd.Rtr.Table().AddRoute(e)
+					w.log("gossip at n%d: route to peer %s via peer %s (added=%v err=%v)", i, dst.Peer(), via.Peer(), added, err)
+					done = true
+				}
+				if done {
+					c.Class("gossip-route-to-a-live-peer")
 				}
 			case 9: // three overlapping setups between two routers, directions and schedule generated
 				a, b := pair()
